@@ -114,6 +114,7 @@ Proof. exact to_ascii_refuted. Qed.
 Check head_to_bigint_refuted. Check head_to_int_nan_refuted. Check head_sqrt_bigint_refuted.
 Check head_powf_bigint_refuted. Check head_pow_int_refuted. Check head_index_bigint_refuted.
 Check head_parse_int_0x_refuted. Check head_delete_all_refuted. Check head_to_float_bigint_refuted.
+Check head_parse_radix_0x_refuted.
 Check repaired_on_witnesses.
 
 (* ---- non-vacuity *)
